@@ -134,35 +134,77 @@ Theorem C18_implemented_variant_differs_from_book :
     hs_h rb == 1 # 5 /\ hs_h rc == 1 # 10.
 Proof. exact implemented_variant_differs_from_book. Qed.
 
-(* T18.3  dt0 = scale * |u0| / (|f(u0)| + nugget) is strictly positive iff
-   u0 is not the zero vector (norm oracle exact at u0 and at f(u0)) ... *)
-Theorem C18_dt0_positive_iff :
+(* T18.3  dt0 (repaired, f2a7222):
+     norm_y0 < 1e-5 -> 1e-6, else scale * |u0| / (|f(u0)| + nugget).
+   For every vector field, every initial value, every norm oracle (no contract
+   on |u0| at all): if scale > 0 and the denominator |f(u0)| + nugget is
+   positive, the model has a value and it is strictly positive. *)
+Theorem C18_dt0_positive :
+  forall (f : Q -> list Q -> list Q) (nrm : list Q -> Q) (scale nugget t : Q)
+         (u0 : list Q),
+    0 < scale -> 0 < nrm (f t u0) + nugget ->
+    exists h, dt0_simple f nrm scale nugget t u0 = Some h /\ 0 < h.
+Proof. exact dt0_positive. Qed.
+
+(* ... in the usual reading: nugget > 0 and a non-negative norm of f(u0). *)
+Theorem C18_dt0_positive_for_positive_nugget :
+  forall (f : Q -> list Q -> list Q) (nrm : list Q -> Q) (scale nugget t : Q)
+         (u0 : list Q),
+    0 < scale -> 0 < nugget -> 0 <= nrm (f t u0) ->
+    exists h, dt0_simple f nrm scale nugget t u0 = Some h /\ 0 < h.
+Proof. exact dt0_positive_nugget. Qed.
+
+(* T18.3a  What the guard does: below the threshold 1e-5 the proposal is the
+   constant 1e-6; at or above it, it is the pre-fix quotient [dt0_unguarded]. *)
+Theorem C18_dt0_guard_value :
+  forall (f : Q -> list Q -> list Q) (nrm : list Q -> Q) (scale nugget t : Q)
+         (u0 : list Q),
+    (nrm u0 < 1 # 100000 ->
+       dt0_simple_branch nrm u0 = true /\
+       dt0_simple f nrm scale nugget t u0 = Some (1 # 1000000)) /\
+    (1 # 100000 <= nrm u0 -> ~ nrm (f t u0) + nugget == 0 ->
+       dt0_simple_branch nrm u0 = false /\
+       dt0_simple f nrm scale nugget t u0 = Some (dt0_unguarded f nrm scale nugget t u0)).
+Proof. exact dt0_guard_value. Qed.
+
+(* T18.3b  In particular the proposal at u0 = 0 is 1e-6, whatever the field. *)
+Theorem C18_dt0_at_zero_u0 :
+  forall (f : Q -> list Q -> list Q) (nrm : list Q -> Q) (scale nugget t : Q)
+         (u0 : list Q),
+    is_norm (nrm u0) u0 -> Forall (fun x => x == 0) u0 ->
+    dt0_simple f nrm scale nugget t u0 = Some (1 # 1000000).
+Proof. exact dt0_at_zero_u0. Qed.
+
+(* T18.3c  The hypothesis on the denominator cannot be dropped: nugget = 0 and
+   f(u0) = 0 with |u0| >= 1e-5 divides by zero (the float code returns inf). *)
+Theorem C18_dt0_undefined_for_zero_denominator :
+  exists (f : Q -> list Q -> list Q) (nrm : list Q -> Q) (scale nugget t : Q)
+         (u0 : list Q),
+    is_norm (nrm u0) u0 /\ is_norm (nrm (f t u0)) (f t u0) /\
+    0 < scale /\ nugget == 0 /\
+    dt0_simple f nrm scale nugget t u0 = None.
+Proof. exact dt0_undefined_for_zero_denominator. Qed.
+
+(* T18.3d  Documentation of the repaired defect (finding F6): the formula
+   BEFORE the repair, [dt0_unguarded] = scale * |u0| / (|f(u0)| + nugget), is
+   positive iff u0 is not the zero vector, hence "positive for every initial
+   value" was refuted (witness u0 = (0,0), f = (3,4), default scale and
+   nugget); on the same witness the repaired dt0 returns 1e-6. *)
+Theorem C18_dt0_unguarded_positive_iff :
   forall (f : Q -> list Q -> list Q) (nrm : list Q -> Q) (scale nugget t : Q)
          (u0 : list Q),
     0 < scale -> 0 < nugget ->
     is_norm (nrm u0) u0 -> is_norm (nrm (f t u0)) (f t u0) ->
-    (0 < dt0_simple f nrm scale nugget t u0 <-> ~ Forall (fun x => x == 0) u0).
-Proof. exact dt0_positive_iff. Qed.
+    (0 < dt0_unguarded f nrm scale nugget t u0 <-> ~ Forall (fun x => x == 0) u0).
+Proof. exact dt0_unguarded_positive_iff. Qed.
 
-(* ... for u0 = 0 it is exactly 0, whatever the vector field ... *)
-Theorem C18_dt0_zero_at_zero_u0 :
-  forall (f : Q -> list Q -> list Q) (nrm : list Q -> Q) (scale nugget t : Q)
-         (u0 : list Q),
-    0 < scale -> 0 < nugget ->
-    is_norm (nrm u0) u0 -> is_norm (nrm (f t u0)) (f t u0) ->
-    Forall (fun x => x == 0) u0 ->
-    dt0_simple f nrm scale nugget t u0 == 0.
-Proof. exact dt0_zero_at_zero_u0. Qed.
-
-(* ... so "dt0 returns a strictly positive step for every initial value" is
-   REFUTED on the current tree (finding F6; witness u0 = (0,0), f = (3,4),
-   default scale and nugget). *)
-Theorem C18_dt0_positive_refuted :
+Theorem C18_dt0_unguarded_positive_refuted :
   exists (f : Q -> list Q -> list Q) (nrm : list Q -> Q) (t : Q) (u0 : list Q),
     is_norm (nrm u0) u0 /\ is_norm (nrm (f t u0)) (f t u0) /\
     ~ Forall (fun x => x == 0) (f t u0) /\
-    dt0_simple f nrm dt0_default_scale dt0_default_nugget t u0 == 0.
-Proof. exact dt0_positive_refuted. Qed.
+    dt0_unguarded f nrm dt0_default_scale dt0_default_nugget t u0 == 0 /\
+    dt0_simple f nrm dt0_default_scale dt0_default_nugget t u0 = Some (1 # 1000000).
+Proof. exact dt0_unguarded_positive_refuted. Qed.
 
 Print Assumptions C18_dt0_adaptive_total_and_positive.
 Print Assumptions C18_dt0_adaptive_positive_whenever_defined.
@@ -173,6 +215,10 @@ Print Assumptions C18_book_relation_determines_the_proposal.
 Print Assumptions C18_scaled_norm_is_sqrt_n_times_book_norm.
 Print Assumptions C18_norm_variants_coincide_for_scalar_unit_scale.
 Print Assumptions C18_implemented_variant_differs_from_book.
-Print Assumptions C18_dt0_positive_iff.
-Print Assumptions C18_dt0_zero_at_zero_u0.
-Print Assumptions C18_dt0_positive_refuted.
+Print Assumptions C18_dt0_positive.
+Print Assumptions C18_dt0_positive_for_positive_nugget.
+Print Assumptions C18_dt0_guard_value.
+Print Assumptions C18_dt0_at_zero_u0.
+Print Assumptions C18_dt0_undefined_for_zero_denominator.
+Print Assumptions C18_dt0_unguarded_positive_iff.
+Print Assumptions C18_dt0_unguarded_positive_refuted.
